@@ -58,6 +58,73 @@ example :
       ([.ok (.str [0x42, 0x41, 0x44, 0x43]), .ok (.str [0x42, 0x41, 0x44, 0x43]), .ok (.u 16 0x4344)],
        ⟨[0x41, 0x42, 0x43, 0x44], []⟩) := by decide
 
+/-! ### sequences in which the view is configured again (`WithByteOrder`) between reads
+
+A caller may configure the view, read, configure it differently and read again. Nothing a read does stays behind: each
+result is the result of the same call made alone on a view configured with the order in force at that point, and the
+payload is the payload of the response - whatever was read or configured before. -/
+
+/-- a step of a caller's program: an accessor call, or `WithByteOrder o` -/
+inductive Step where
+  | acc (a : Acc) (addr : UInt16)
+  | wbo (o : ByteOrder)
+
+/-- run a program, threading payload and configured order through; the results of the accessor calls, in order -/
+def runSteps (r : Registers) : List Step → List (PRes Val) × Slice
+  | [] => ([], r.data)
+  | .wbo o :: rest => runSteps { r with order := o } rest
+  | .acc a addr :: rest =>
+    let (res, d') := r.access a addr
+    let (more, final) := runSteps { r with data := d' } rest
+    (res :: more, final)
+
+/-- the same program on views that are new at every step: only the configured order is carried along -/
+def soloSteps (r : Registers) : List Step → List (PRes Val)
+  | [] => []
+  | .wbo o :: rest => soloSteps { r with order := o } rest
+  | .acc a addr :: rest => (r.access a addr).1 :: soloSteps r rest
+
+theorem sequence_reconfigured (r : Registers) (steps : List Step) :
+    (runSteps r steps).2 = r.data ∧ (runSteps r steps).1 = soloSteps r steps := by
+  induction steps generalizing r with
+  | nil => exact ⟨rfl, rfl⟩
+  | cons st rest ih =>
+    cases st with
+    | wbo o =>
+      have h := ih { r with order := o }
+      exact ⟨h.1, h.2⟩
+    | acc a addr =>
+      have h := ih { r with data := (r.access a addr).2 }
+      simp only [access_preserves] at h
+      unfold runSteps soloSteps
+      simp only [access_preserves]
+      exact ⟨h.1, by rw [h.2]⟩
+
+/-- a read before the view is configured leaves nothing behind: the reads after `WithByteOrder o` are the reads of a
+view configured with `o` that was never read before -/
+theorem reads_before_configuring_leave_nothing (r : Registers) (before after : List (Acc × UInt16)) (o : ByteOrder) :
+    (runSteps r (before.map (fun x => Step.acc x.1 x.2) ++ [Step.wbo o] ++ after.map (fun x => Step.acc x.1 x.2))).1 =
+      (before.map fun x => (r.access x.1 x.2).1) ++ (after.map fun x => (({ r with order := o } : Registers).access x.1 x.2).1) := by
+  rw [(sequence_reconfigured r _).2]
+  induction before with
+  | nil =>
+    simp only [List.map_nil, List.nil_append, List.singleton_append, soloSteps]
+    generalize ({ r with order := o } : Registers) = r'
+    induction after with
+    | nil => rfl
+    | cons x rest ih => simp only [List.map_cons, soloSteps, ih]
+  | cons x rest ih =>
+    simp only [List.map_cons, List.cons_append, soloSteps]
+    simp only [List.append_assoc] at ih
+    rw [← ih]
+    simp [List.append_assoc]
+
+/-- non-vacuity: big-endian read, reconfigured little endian, the same register read again (and "no order" last) -/
+example :
+    let r : Registers := { order := 9, start := 10, end_ := 12, data := ⟨[0x12, 0x34, 0x56, 0x78], []⟩ }
+    (runSteps r [.acc .u16 10, .wbo 10, .acc .u16 10, .wbo 0, .acc .u16 10]).1 =
+      [.ok (.u 16 0x1234), .ok (.u 16 0x3412), .ok (.u 16 0x1234)] := by decide
+
 /-! ### `ExtractFields`: the fields of one request are decoded independently of each other
 
 `extractLoop` (the model of `BuilderRequest.extractRegisterFields`) threads the payload each `Field.ExtractFrom` leaves
